@@ -11,7 +11,7 @@ The H2 hook (eval_enter/eval_exit, pending captured messages) and read-only walk
 state (context stack depth, wip flags, todo lists) are recorded as suspects in the replay file; the
 verdict always comes from the behaviour.
 """
-from vp import plugins, wb, wbgen
+from vp import plugins, realbooks, wb, wbgen
 
 PROP = 'C09'
 LEVEL = 'fault_enumeration'
@@ -27,7 +27,7 @@ FLOORS = {
               'second_failures': 150, 'repairs': 400, 'repair_compares': 3000, 'mode:plain': 200,
               'mode:iterative': 200, 'kind:nosuch': 150, 'kind:failk-always': 150, 'kind:failk-once': 100,
               'pos:leaf': 50, 'pos:mid-chain': 50, 'pos:in-range': 50, 'pos:cse': 10, 'pos:cycle': 20,
-              'first:probe': 100, 'h2_events': 5000},
+              'first:probe': 100, 'h2_events': 5000, 'real_book_cases': 30, 'real_faults_raised': 30},
     'thorough': {'cases': 12000, 'second_failures': 3000, 'pos:cse': 200, 'pos:cycle': 500},
 }
 ASSUMPTIONS = ['unrelated = not a ground-truth dependant of a failing cell (ranges count with all their cells)',
@@ -515,6 +515,8 @@ def run(ctx):
     kinds = ['nosuch', 'failk-always', 'failk-once']
     if ctx.shard == 0:
         unbounded_case(ctx)
+    # faults injected into the workbooks shipped with the repository
+    realbooks.run_cases(ctx, realbooks.c09_case, realbooks.acyclic_books(), 10 if ctx.quick else 100, fraction=0.25)
     i = 0
     while not ctx.out_of_time():
         i += 1
@@ -535,6 +537,9 @@ def run(ctx):
 
 
 def replay(ctx, case):
+    if case.get('kind') == 'real-book':
+        realbooks.c09_case(ctx, case['book'], case['case_seed'])
+        return
     if case['kind'] == 'unbounded':
         unbounded_case(ctx)
     elif case['kind'] == 'cycle':
